@@ -118,8 +118,9 @@ FormatEv ==
 SignFactorEv ==
   /\ Is("SignFactor")
   /\ LET mp == FormatMsg(Ev.mode, Ev.ctx, Ev.m)
-     IN Finish(0, Ev.ok /\ mp = Ev.mp /\ Ev.ext = Ev.int /\ Ev.rnglog = OneDraw,
-               [mp_equal |-> mp = Ev.mp, ext_equals_int |-> Ev.ext = Ev.int, rnglog |-> Ev.rnglog])
+         okv == ("ver_ext" \in DOMAIN Ev) => (Ev.ver_ext /\ Ev.ver_int)       \* and Verify = Verify_internal o FormatMsg accepts it
+     IN Finish(0, Ev.ok /\ mp = Ev.mp /\ Ev.ext = Ev.int /\ Ev.rnglog = OneDraw /\ okv,
+               [mp_equal |-> mp = Ev.mp, ext_equals_int |-> Ev.ext = Ev.int, rnglog |-> Ev.rnglog, verifies |-> okv])
 
 \* ---- SignAttempts: the per-attempt log of one signing call (hook in the rejection loop): the
 \* decision of every attempt is the one Algorithm 7 lines 23 and 28 prescribe for the logged norms
